@@ -756,7 +756,7 @@ def run_engine_p(ctx, pg, prop, emit_args=None, features=(), case_file=None):
                 twin_rejected.append("sound twin %s does not compile: %s" % (r["file"], r.get("why", "")))
                 continue
             if st == "violation":
-                dst_dir = os.path.join(found_dir(prop), r["id"])
+                dst_dir = os.path.join(found_dir(ctx.prop), r["id"])
                 os.makedirs(dst_dir, exist_ok=True)
                 shutil.copyfile(os.path.join(work, r["file"]), os.path.join(dst_dir, r["file"]))
                 job = [j for j in jobs if j["id"] == r["id"]][0]
@@ -1030,6 +1030,16 @@ def check_c19(ctx):
     finally:
         shutil.rmtree(work, ignore_errors=True)
     progs = c19_feature_programs(ctx)
+    feature_programs = {}
+    if ctx.tier == "thorough":
+        # engine P's generated positive programs behave identically under the feature sets
+        import farm
+        pg = farm.build_pg()
+        for feats in [("events",), ("32_components",), ("wrapping_version",), ("events", "32_components", "wrapping_version")]:
+            for prop_p, args in [("C05", ["--programs", "8", "--worlds", "8", "--queries", "8", "--pairs", "20"]), ("C15", ["--programs", "6", "--worlds", "10", "--queries", "2", "--pairs", "16"]),
+                                 ("C16", ["--programs", "8", "--worlds", "3", "--queries", "5", "--flags", "3"])]:
+                r = run_engine_p(ctx, pg, prop_p, emit_args=args, features=feats)
+                feature_programs["%s under %s" % (prop_p, "+".join(feats))] = {k: r[k] for k in ("jobs", "run_ok", "lines_compared", "reject_ok", "accept_ok")}
     cov = {
         "evaluations": evaluations + len(progs),
         "distinct_nontrivial": len(hashes),
@@ -1041,6 +1051,7 @@ def check_c19(ctx):
         "label_histogram": labels,
         "collateral": collateral,
         "feature_delta_programs": [{"id": r["id"], "kind": r["kind"], "status": r["status"]} for r in progs],
+        "generated_programs_under_feature_sets": feature_programs,
         "regression_replays": len(files),
     }
     write_evidence(ctx, "exploration", cov, HIST_ASSUMPTIONS + ["the differential compares only what the oracle is lenient about; everything else is already pinned by the model in every configuration"])
